@@ -172,7 +172,8 @@ LIB_EXC = {
     'websocket.WebSocketConnectionClosedException': 'WebSocketConnectionClosedException',
     'websocket.WebSocketTimeoutException': 'WebSocketTimeoutException',
     'aiohttp.client_exceptions.ServerDisconnectedError': 'ServerDisconnectedError',
-    'binascii.Error': 'BinasciiError',
+    'aiohttp.ClientError': 'ClientError',
+    'binascii.Error': 'BinasciiError', 'json.JSONDecodeError': 'JSONDecodeError',
 }
 LIB_MODS = {'urllib.parse', 'os.path', 'aiohttp.client_exceptions'}
 
@@ -1601,15 +1602,25 @@ def _decode(eng, st, recv, args, kwargs, line):
 @libm('str', 'format')
 def _format(eng, st, recv, args, kwargs, line):
     fs = z3.simplify(recv.t)
-    if not z3.is_string_value(fs) or args:
+    if not z3.is_string_value(fs):
         raise core.EngineError('str.format form at line %d' % line)
     import string
     out = z3.StringVal('')
+    auto = 0
     for lit, field, spec_, conv in string.Formatter().parse(fs.as_string()):
         if lit:
             out = z3.Concat(out, z3.StringVal(lit))
         if field is not None:
-            if spec_ or conv or field not in kwargs:
+            if spec_ or conv:
+                raise core.EngineError('str.format field at line %d' % line)
+            if field == '' or field.isdigit():           # positional: '{}' / '{0}'
+                i = auto if field == '' else int(field)
+                auto += 1
+                if i >= len(args):
+                    raise core.EngineError('str.format index at line %d' % line)
+                out = z3.Concat(out, to_str(eng, args[i]))
+                continue
+            if field not in kwargs:
                 raise core.EngineError('str.format field at line %d' % line)
             out = z3.Concat(out, to_str(eng, kwargs[field]))
     yield st, vstr(z3.simplify(out))
